@@ -8,10 +8,14 @@ CONSTANTS
   SdFields <- MCSdFields
   SuFields <- MCSuFields
   MaxLen = 3
-  Variants = 2
+  Shapes <- MCShapes
+  Targets <- MCTargets
+  EmptyDiffShapes <- MCEmptyDiffShapes
+  ClassShapes <- MCClassShapes
   MaxPending = 1
   SuccessionChecked = TRUE
   RootChecked = TRUE
+  RootCheckedOnEmptyDiff = TRUE
   TxHashesChecked = TRUE
   WriteBeforeChecks = FALSE
 INIT Init
